@@ -22,7 +22,7 @@ add("C29", "exploration", "vh",
 
 add("C17", "exploration", "vh",
     "exhaustive small-scope tree enumeration with sharing; salt enumeration through hook H3",
-    "Every tree of two small-alphabet tree spaces (repeated sub-trees at every depth) in fresh and hash-consed form, list families whose paths cross 8/16 bits and doubling trees: node_to_bytes_backrefs output must decode (new, legacy, reference decoder) to the tree, be canonical, be no longer than classic, be identical across two runs and across the enumerated hash-salt classes, and re-serialize to itself.",
+    "Every tree of two small-alphabet tree spaces (repeated sub-trees at every depth) in fresh and hash-consed form, every tree denoted by a well-formed back-reference token stream of up to 5|6 leaves (decoded by the reference decoder: sub-trees equal to the parse stack, references to references), list families whose paths cross 8/16 bits and doubling trees: node_to_bytes_backrefs output must decode (new, legacy, reference decoder) to the tree, be canonical, be no longer than classic, be identical across two runs and across the enumerated hash-salt classes, and re-serialize to itself.",
     "Trusts the reference back-reference decoder (refserde.rs). Salt classes enumerated: 0, !0, a constant, low-bit and high-bit patterns (bucket index and control byte of the table); not all 2^64 salts.")
 
 add("C18", "model_checking", "vh",
@@ -32,7 +32,7 @@ add("C18", "model_checking", "vh",
 
 add("C20", "model_checking", "vh",
     "exhaustive tree, byte-string and token-sequence enumeration against a reference 2026 decoder",
-    "Trees x levels round-trip strict and lenient with the length probe; every short raw body and every token-level blob (atom-table configurations x instruction sequences x declared counts x single overlong-varint deviations) under strict x max_atom_len is decoded by both entry points and the probe and compared with a reference decoder written from docs/serde-2026.md; classic and back-reference decoders must reject everything that carries the magic prefix.",
+    "Trees x levels round-trip strict and lenient with the length probe, also as two blobs back to back on one stream; every short raw body and every token-level blob (atom-table configurations x instruction sequences x declared counts x single overlong-varint deviations) under strict x max_atom_len is decoded by the three entry points (slice, whole-blob stream with the stream position checked afterwards, body stream) and the probe, and compared with a reference decoder written from docs/serde-2026.md; classic and back-reference decoders must reject everything that carries the magic prefix.",
     "Trusts refserde.rs. max_atom_len = usize::MAX (caller-selected unbounded pre-allocation) is not part of the quick tier.")
 
 add("C22", "model_checking", "vh+pyleg",
@@ -57,7 +57,7 @@ add("C13", "model_checking", "vh",
 
 add("C14", "model_checking", "vh",
     "allocator BFS with a content oracle + exhaustive enumeration of short byte strings and integers",
-    "(a) in every state of the allocator BFS every handle still valid per the model (also after restores to later checkpoints) must read back its recorded bytes/children through every read API, and atom_eq must equal byte equality on every pair of live atoms; (b) fits_in_small_atom/small_number/new_atom on every byte string up to 3 bytes, 4-byte lattices and a 5-letter alphabet up to 6 bytes in inline and heap form; all integer constructors on every integer in +-2^14|2^17 and +-2^k+-d up to 2^120 against an independent minimal encoder.",
+    "(a) in every state of the allocator BFS every handle still valid per the model (also after restores to later checkpoints) must read back its recorded bytes/children through every read API, and atom_eq must equal byte equality on every pair of live atoms; (b) fits_in_small_atom/small_number/new_atom on every byte string up to 3 bytes, 4-byte lattices and a 5-letter alphabet up to 6 bytes in inline and heap form; (d) every in-range and out-of-range substring window of parents at several heap positions followed by checkpoint/allocate/restore/allocate: the node handed out keeps its bytes; all integer constructors on every integer in +-2^14|2^17 and +-2^k+-d up to 2^120 against an independent minimal encoder.",
     "Trusts the minimal-encoding oracle in tree.rs (int_bytes).")
 
 add("C19", "model_checking", "vh",
@@ -67,32 +67,32 @@ add("C19", "model_checking", "vh",
 
 add("C01", "model_checking", "vh",
     "small-scope exhaustive program enumeration: real run_program against a reference interpreter (per-case conformance)",
-    "Every program of six grammars (operator applications over all classic / unassigned / multi-byte unknown opcodes, raw ((op) . args) forms with improper lists, all ordered operator compositions, every small tree interpreted as a program against every small environment, recursive and allocation-heavy families for every parameter, softfork guards with exact/off-by-k/huge/negative/non-canonical costs) is evaluated by the real interpreter and by RefVM; results, costs and success under budgets C, C-1, C+1, C/2 must agree. Consensus changes are named adapters with use counts in the evidence.",
+    "Every program of six grammars (operator applications over all classic / unassigned / multi-byte unknown opcodes, raw ((op) . args) forms with improper lists, all ordered operator compositions, every small tree interpreted as a program against every small environment, recursive and allocation-heavy families for every parameter, softfork guards with exact/off-by-k/huge/negative/non-canonical costs) is evaluated by the real interpreter (atoms in place where possible, and again with every atom heap-backed) and by RefVM; results, costs and success under budgets C, C-1, C+1, C/2 must agree. Consensus changes are named adapters with use counts in the evidence.",
     "RefVM (harness/src/refvm.rs) is a transcription of the historical Python interpreter (the package itself is not installable offline); it is validated at every start-up against the repository's 1.2k v1 operator vectors and a vector it gets wrong aborts the check as a machinery error. Programs larger than the scopes are not covered.")
 
 add("C02", "exploration", "vh",
     "deviation-bounded exploration of the budget answer: every budget class of every enumerated program",
-    "For every succeeding program of four grammars x 5 flag sets the only budget-dependent environment answer ('is cost > max?') is explored completely: every budget 1..=C+2 for programs up to the sweep cap, and for costlier programs every threshold extracted from the logged comparisons (hook H2) +-1, plus 2^32, 2^63 and u64::MAX-k. Oracles: soundness, identical successes, upward closure, exact 'cost exceeded' below, tightness (except grandfathered guards). The threshold extraction is validated against the full sweep on every cheap program.",
+    "For every succeeding program of eight spaces (incl. 600-byte operands for every operator family, byte-level forms of softfork arguments) x 5-7 flag sets the only budget-dependent environment answer ('is cost > max?') is explored completely: every budget 1..=C+2 for programs up to the sweep cap, and for costlier programs every threshold extracted from the logged comparisons (hook H2) +-1, plus 2^32, 2^63 and u64::MAX-k. Oracles: soundness, identical successes, upward closure, exact 'cost exceeded' below, tightness (except grandfathered guards). The threshold extraction is validated against the full sweep on every cheap program.",
     "Differential / algebraic oracle on the real interpreter (no separate model). 'May enter a grandfathered guard' is over-approximated syntactically (NEW_COST_MODEL and a softfork atom anywhere), which only skips the tightness clause.")
 
 add("C04", "exploration", "vh",
     "exhaustive differential exploration (ENABLE_GC on vs off) over program spaces, budgets and allocator heap limits",
-    "Every program of the GC space (all 34 GC-candidate operators x inner expressions that produce each restore class), the recursive families, the guard space and P1/P2, under several base flag sets, is run with and without ENABLE_GC for budget 0, C, C-1 and interior thresholds, and under every heap limit within 70 bytes of the program's need; result, cost, error string and atom/pair/heap counts must be identical. The check fails as machinery if no restore happened.",
-    "Differential on the real interpreter; the allocator's own accounting is C12's subject.")
+    "Every program of the GC space (all 34 GC-candidate operators x inner expressions that produce each restore class), the GC-after family (values that survived a value-preserving restore consumed by substr/concat/hash/arithmetic operators), the recursive families, the guard space and P1/P2, under several base flag sets, is run with and without ENABLE_GC for budget 0, C, C-1 and interior thresholds, and under every heap limit within 70 bytes of the program's need; result, cost, error string and atom/pair/heap counts must be identical. The check fails as machinery if no restore happened.",
+    "Differential on the real interpreter; the allocator's own accounting is C12's subject. One known finding (F-C04-substr-inline, same root cause as C12's).")
 
 add("C07", "exploration", "vh",
     "exhaustive differential exploration over the flag lattice: every program x base flag set x all 63 subsets of the six restriction flags",
-    "For every program of five spaces (repository vectors for every operator, all opcodes over constants incl. non-canonical integers, arithmetic/BLS operands around 256/1024/2048 bytes, softfork guards, recursive families) and each base flag set, every non-empty subset R of {NO_UNKNOWN_OPS, CANONICAL_INTS, DISABLE_OP, LIMIT_SOFTFORK, LIMITS, LIMIT_HEAP} is added: a success under F|R must be the same success under F; RELAXED_BLS must preserve every success; a mempool-mode success must be a consensus success at a budget equal to its cost.",
+    "For every program of seven spaces (every byte-level form of the two softfork integer arguments, the extension-gated operator around guards, repository vectors for every operator, all opcodes over constants incl. non-canonical integers, arithmetic/BLS operands around 256/1024/2048 bytes, softfork guards, recursive families) and each base flag set, every non-empty subset R of {NO_UNKNOWN_OPS, CANONICAL_INTS, DISABLE_OP, LIMIT_SOFTFORK, LIMITS, LIMIT_HEAP} is added: a success under F|R must be the same success under F; RELAXED_BLS must preserve every success; what mempool mode accepts at a budget equal to its cost the base flags accept at that budget.",
     "LIMIT_HEAP is given the wheel's meaning (allocator limited to 500,000,000 bytes). One known finding: a guard with a non-canonical extension argument under CANONICAL_INTS without NO_UNKNOWN_OPS.")
 
 add("C08", "exploration", "vh",
     "exhaustive differential exploration with an extension-hiding wrapper Dialect",
-    "Every guard program of P5 (keccak, BLS, 4-byte secp, failing and nested inner programs x extensions x declared costs x contexts), the 4-byte secp opcodes / opcodes 62-65 with vector and junk arguments and the vector programs run on ChiaDialect and on a wrapper dialect that reports every extension as unknown and sends the secp opcodes to op_unknown, under non-strict flag sets without NEW_COST_MODEL and budgets 0, C, C-1: aware success implies unaware success with the same result, cost and atom/pair/heap counts.",
+    "Every guard program of P5, GUARD-ARGS (byte-level forms of the cost/extension arguments) and GUARD-THEN-OP (the gated operator before/after/between/inside guards) (keccak, BLS, 4-byte secp, failing and nested inner programs x extensions x declared costs x contexts), the 4-byte secp opcodes / opcodes 62-65 with vector and junk arguments and the vector programs run on ChiaDialect and on a wrapper dialect that reports every extension as unknown and sends the secp opcodes to op_unknown, under non-strict flag sets without NEW_COST_MODEL and budgets 0, C, C-1: aware success implies unaware success with the same result, cost and atom/pair/heap counts.",
     "The wrapper dialect (progspace.rs::HideExt) is the model of an extension-unaware node.")
 
 add("C11", "exploration", "vh",
     "exhaustive differential exploration F vs F|NEW_COST_MODEL",
-    "Every program of seven spaces (vectors, all opcodes, big operands reaching the split-accumulator code of + - and the logic operators, compositions, families, guards, limit-size operands) under several base flag sets is run under both cost models (budget ceiling 2^34 and the smaller of the two costs); whenever both succeed the result trees must be identical.",
+    "Every program of seven spaces (vectors, all opcodes, big operands reaching the split-accumulator code of + - and the logic operators, compositions, families, guards, limit-size operands) under 6|15 base flag sets (every flag whose meaning the new model changes appears alone) is run under both cost models (budget ceiling 2^34 and the smaller of the two costs); whenever both succeed the result trees must be identical.",
     "Differential on the real interpreter; the number of distinct operators for which both models succeed is reported to show non-vacuity.")
 
 add("C31", "exploration", "vh",
@@ -132,7 +132,7 @@ add("C25", "exploration", "vh",
 
 add("C05", "exploration", "vh",
     "exhaustive differential exploration across three separately built binaries (default, no-fastpath, counters+pre-eval)",
-    "About 4.8M (quick) cases - every program of eight spaces x 4 flag sets x 4 budgets, 23 operators called directly with every argument list of arity <=3|4 over boundary atoms in inline / heap / view representation under both cost models, sha256 of (1 n) for n=0..40 in every representation - are evaluated by three harness binaries built against clvmr with default features, no-fastpath, and counters+pre-eval (observe-only callback, run_program_with_counters); the per-case outcome digests (result, cost, error string, atom/pair/heap counts) must be byte-identical.",
+    "About 2.3M (quick) cases - every program of nine spaces x 5 flag sets x 4 budgets (failing programs: a 48-step geometric budget ladder), 23 operators called directly with every argument list of arity <=3|4 over boundary atoms in inline / heap / view representation under both cost models, sha256 of (1 n) for n=0..40 in every representation - are evaluated by three harness binaries built against clvmr with default features, no-fastpath, and counters+pre-eval (observe-only callback, run_program_with_counters); the per-case outcome digests (result, cost, error string, atom/pair/heap counts) must be byte-identical.",
     "The quick command builds three binaries (about 1-3 minutes when cold). The accumulator choice of the pre-hard-fork +/- slow path is scripted identically in all binaries (hook H4).")
 
 add("C10", "model_checking", "vh",
